@@ -1199,7 +1199,8 @@ public:
       size_t ii{};
       for (; ii < eeii; ii += 4)
       {
-         auto next(*reinterpret_cast<const std::uint32_t *>(from + ii));
+         std::uint32_t next;
+         ::memcpy(&next, from + ii, sizeof(next)); // buffer is not necessarily 4 byte aligned
          auto expected_overflow((ret & OVERFLOW_MASK) ^ (OVERFLOW_MASK & next));
          ret += next;
          overflowtmp += (expected_overflow ^ ret) & OVERFLOW_MASK;
